@@ -28,7 +28,7 @@ class C03(Spec):
     theorems = ["Nun.C03_changed_fanout_reaches_every_subscriber", "Nun.C03_removed_fanout_reaches_every_subscriber", "Nun.C03_write_accepted", "Nun.C03_write_refused", "Nun.C03_remove_notifies", "Nun.C03_increment_accepted", "Nun.C03_increment_refused",
                 "Nun.C03_other_clients_cannot_touch", "Nun.C03_unsubscribe", "Nun.C03_ends_current", "Nun.watch_nodup", "Nun.unwatch_nodup"]
     rule = ("two writer sessions and two subscriber sessions on one database: all sequences of length L (3 quick / 4 thorough) over {watch a, watch b, unwatch a, unwatch-all, disconnect+reconnect} per subscriber and "
-            "{set, set-safe accepted/refused, increment ok/non-numeric, remove, replicated set/remove/increment, refused secure-key write} per writer, plus seeded random sequences of 6-20 operations, plus all sequences of length 2 behind a DEAD subscriber (a session that watched the keys first, selected another database and closed: its senders stay registered and every send to them fails); "
+            "{set, set-safe accepted/refused, increment ok/non-numeric, remove, replicated set/remove/increment, refused secure-key write} per writer, plus seeded random sequences of 6-20 operations (a quarter of them on a database with the `newer` strategy, and all sequences of length 3 / 4 of stale and current versioned writes there), plus all sequences of length 2 behind a DEAD subscriber (a session that watched the keys first, selected another database and closed: its senders stay registered and every send to them fails); "
             "the oracle keeps its own subscription table (from the watch/unwatch/unwatch-all/disconnect commands that succeeded) and, for every command, compares the lines pushed to each subscriber with "
             "exactly one changed+changed-version pair (committed value) / one removed line per subscription of the mutated key, nothing otherwise; at the end the last changed-version a subscriber holds for a key it still watches equals the stored value. "
             "non-trivial = at least one notification delivered and one unsubscribe; distinct by trace hash. SEQUENTIAL: one command at a time (lock-level interleavings: schedule stage)")
@@ -102,9 +102,15 @@ class C03(Spec):
             for tl in tails:
                 c = list(SETUP) + ["C 3 watch a", "C 4 watch a", "HOLD 3"] + [f"C {1 + i % 2} set a w{i}" for i in range(n_w)] + tl + ["RELEASE 3", "C 1 set a fin", "C 1 get-safe a"]
                 cases.append(c)
+        # the same subscribers on a database with the `newer` strategy: a stale versioned write is not refused there but RESOLVED — the stored value
+        # changes through `try_resolve_conflict_response`, a different writer than an accepted write's, and the subscribers must hear of it all the same
+        newer = [x + " newer" if x == "C 1 create-db t tok" else x for x in SETUP]
+        stale = ["C 2 set-safe a 0 s0", "C 2 set-safe a 1 s1", "C 1 set a x", "C 1 replicate t a 0 rv", "C 1 increment a", "C 1 remove a", "C 3 unwatch a", "C 3 watch a"]
+        for seq in itertools.product(stale, repeat=3 if tier == "quick" else 4):
+            cases.append(newer + pre + ["C 1 set a 0", "C 1 set a 1", "C 1 set a 2"] + list(seq) + ["C 1 set a fin", "C 1 get-safe a"])
         rng = core.XorShift(seed)
-        for _ in range(1500 if tier == "quick" else 30000):
-            c = list(SETUP)
+        for i in range(1500 if tier == "quick" else 30000):
+            c = list(newer if i % 4 == 3 else SETUP)
             for _ in range(6 + rng.below(15)): c += rng.choice(al).split("\n")
             c += ["C 1 get-safe a", "C 1 get-safe b"]
             cases.append(c)
